@@ -25,7 +25,7 @@ func (e *Engine) rootsAtField(v ssa.Value, typSuffix, field string) bool {
 }
 
 func runC19(e *Engine, r *Report, tier string) {
-	r.Explanation = "C19, structural clauses. Decided: R1 lifecycle of the IBC transfer relation (erc20 family 0x04, set by the precompile's IBC send keyed channel/sequence): in the middleware keeper every success path of the acknowledgement handler and of the timeout handler passes through a call that (through the wired crosschain -> erc20 keepers) deletes family 0x04, with key arguments rooted in packet.SourceChannel / packet.Sequence and passed through unchanged; R2 the refund re-converts to ERC-20 only behind `delete of 0x04 returned true`, for the packet's sender as both payer and receiver; R3 inbound: conversion to ERC-20 is dominated by `denom != FX` and `receiver is a hex address` (else error), its coin amount is the packet amount, and every keeper error becomes an error acknowledgement after the inner module succeeded (never the success ack); R7 every success return of the routine behind the inbound conversion call follows the erc20 ConvertCoin call (no `nothing to do` early success); R4 the memo call's EVM sender is the hash of (packet source port/channel, packet data sender) and nothing else. Not decided: duplicated/replayed acknowledgements (IBC core), whether source or destination channel identifiers are the right uniqueness domain (observation in DESIGN.md)."
+	r.Explanation = "C19, structural clauses. Decided: R1 lifecycle of the IBC transfer relation (erc20 family 0x04, set by the precompile's IBC send keyed channel/sequence): in the middleware keeper every success path of the acknowledgement handler and of the timeout handler passes through a call that (through the wired crosschain -> erc20 keepers) deletes family 0x04, with key arguments rooted in packet.SourceChannel / packet.Sequence and passed through unchanged; R2 the refund re-converts to ERC-20 only behind `delete of 0x04 returned true`, for the packet's sender as both payer and receiver; R3 inbound: conversion to ERC-20 is dominated by `denom != FX` and `receiver is a hex address` (else error), its coin amount is the packet amount, and every keeper error becomes an error acknowledgement after the inner module succeeded (never the success ack); R7 every success return of the routine behind the inbound conversion call follows the erc20 ConvertCoin call (no `nothing to do` early success); R4 the memo call's EVM sender is the hash of (packet source port/channel, packet data sender) and nothing else. R8 the erc20 conversion behind the credit / refund fails as a whole when a leg fails (imported from C08.R7). Not decided: duplicated/replayed acknowledgements (IBC core), whether source or destination channel identifiers are the right uniqueness domain (observation in DESIGN.md)."
 	r.Rule("R1", "relation 0x04 deleted on ack-success, ack-error and timeout; keyed by packet source channel + sequence; ack classified by response type", 5, "terminal callbacks of the middleware keeper")
 	r.Rule("R2", "refund converts only if the relation existed; holder = packet sender", 2, "")
 	r.Rule("R3", "inbound conversion guarded; keeper error -> error acknowledgement", 3, "")
@@ -37,6 +37,16 @@ func runC19(e *Engine, r *Report, tier string) {
 		for _, o := range sub04.Obls {
 			if o.Rule == "R8" && strings.Contains(o.Construct, "x/ibc/middleware") {
 				r.add("R6", "C04.R8 "+o.Construct, o.Status, o.Pos, o.Detail)
+			}
+		}
+	}
+	r.Rule("R8", "the erc20 conversion that credits / refunds the hex account fails as a whole when one of its legs fails (C08.R7)", 8, "C08 obligations")
+	{
+		sub08 := NewReport("C08", "other")
+		runC08(e, sub08, tier)
+		for _, o := range sub08.Obls {
+			if o.Rule == "R7" {
+				r.add("R8", "C08.R7 "+o.Construct, o.Status, o.Pos, o.Detail)
 			}
 		}
 	}
@@ -383,8 +393,21 @@ func runC19(e *Engine, r *Report, tier string) {
 						return true
 					}
 					for _, cal := range e.calleesOf(c2) {
-						if cal != impl && canonName(cal.Name()) == "ConvertCoin" {
+						if cal == impl {
+							continue
+						}
+						if canonName(cal.Name()) == "ConvertCoin" {
 							return true
+						}
+						// a helper that itself converts on every success path (BaseCoinToEvm)
+						conv := func(i2 ssa.Instruction) bool {
+							c3, ok := i2.(ssa.CallInstruction)
+							return ok && canonName(callName(c3)) == "ConvertCoin"
+						}
+						if cal.Blocks != nil && MustPassThrough(cal, nil, conv) == nil && callsNamed(cal, "ConvertCoin") {
+							if ok, _ := errorHandled(c2); ok {
+								return true
+							}
 						}
 					}
 					return false
